@@ -7,6 +7,7 @@ It is a *bounded* search for a concrete failing input, used to realise / confirm
 stand in where the proof is undecided.  It is never counted as proved.
 """
 import argparse
+import logging
 import json
 import random
 import signal
@@ -29,6 +30,11 @@ def guarded(oracle, inp, seconds=5):
         return oracle(inp)
     except Timeout:
         return 'did not terminate within %ss (watchdog)' % seconds
+    except Exception as ex:      # the library raised where the property promises a result
+        import traceback
+        tb = traceback.extract_tb(ex.__traceback__)
+        where = '%s:%s' % (tb[-1].filename.split('/')[-1], tb[-1].lineno) if tb else '?'
+        return 'unexpected-exception: %s: %s (at %s)' % (type(ex).__name__, str(ex)[:200], where)
     finally:
         signal.setitimer(signal.ITIMER_REAL, 0)
 
@@ -48,6 +54,7 @@ def j2b(x):
 
 
 def main(cases, oracle, bound, budget_s=(20, 240)):
+    logging.disable(logging.CRITICAL)
     ap = argparse.ArgumentParser()
     ap.add_argument('--tier', default='quick')
     ap.add_argument('--seed', type=int, default=0)
